@@ -183,6 +183,26 @@ theorem comments_skipped (cfg : ParseCfg) (fuel : Nat) : ∀ (n : Nat) (st : PSt
     show (parseProgram cfg (fuel + 1)).run { st with pos := st.pos + 1 + n } = _
     rw [show st.pos + 1 + n = st.pos + (n + 1) by omega]
 
+/-- the same inside a `{ … }` block -/
+theorem comments_skipped_in_block (cfg : ParseCfg) (fuel : Nat) : ∀ (n : Nat) (st : PState),
+    (∀ i, i < n → ∃ t, st.toks[st.pos + i]? = some t ∧ t.ty = .COMMENT) →
+    (parseBlock cfg (fuel + 1 + n)).run st = (parseBlock cfg (fuel + 1)).run { st with pos := st.pos + n } := by
+  intro n
+  induction n with
+  | zero => intro st _; rfl
+  | succ n ih =>
+    intro st h
+    obtain ⟨t, ht, hc⟩ := h 0 (Nat.succ_pos n)
+    have h1 := comment_skipped_in_block cfg (fuel + n) st t (by simpa using ht) hc
+    have e1 : fuel + 1 + (n + 1) = fuel + n + 2 := by omega
+    have e2 : fuel + n + 1 = fuel + 1 + n := by omega
+    rw [e1, h1, e2, ih { st with pos := st.pos + 1 } (by
+      intro i hi
+      obtain ⟨t', ht', hc'⟩ := h (i + 1) (by omega)
+      exact ⟨t', by show st.toks[st.pos + 1 + i]? = some t'; rw [show st.pos + 1 + i = st.pos + (i + 1) by omega]; exact ht', hc'⟩)]
+    show (parseBlock cfg (fuel + 1)).run { st with pos := st.pos + 1 + n } = _
+    rw [show st.pos + 1 + n = st.pos + (n + 1) by omega]
+
 /-- `ignore_run(" ")`: blanks only move `pos`/`start`; no token, no line bookkeeping -/
 theorem spaces_ignored (s s' : Scan) (h : s.ignoreRun [' '] = .ok s') :
     s'.input = s.input ∧ s.pos ≤ s'.pos ∧ s'.start = s'.pos := by
